@@ -169,7 +169,7 @@ class C08(Check):
         elif k == 'escape':
             self.check_escape(ctx, cssutils, [(item['text'], item['encoding'])])
         elif k == 'unescape':
-            self.check_unescape(ctx, cssutils, [item['text']])
+            self.check_unescape(ctx, cssutils, [(m, item['text']) for m in ([item['token']] if item.get('token') else ['name', 'str'])])
         elif k == 'reparse':
             self.check_reparse(ctx, cssutils, item['text'], item['encoding'])
 
@@ -329,13 +329,14 @@ class C08(Check):
             unrep = G.unrepresentable(text, e)
             lines.append('esc %s %s' % (enc(unrep), enc(text)))
             lines.append('ok %s %s' % (enc(unrep), enc(text)))
+            lines.append('oks %s %s' % (enc(unrep), enc(text)))
             meta.append((text, e, unrep))
         out = ctx.driver(lines) if ctx.model_ok else [None] * len(lines)
         for i, (text, e, unrep) in enumerate(meta):
             b = text.encode(e, 'escapecss')
             ctx.case(key=('Desc', text, e), nontrivial=bool(unrep), kind='D:esc:' + ('escaped' if unrep else 'plain'),
                      sample={'escape': text, 'encoding': e, 'bytes': b.hex()})
-            m = out[2 * i]
+            m = out[3 * i]
             if m is not None:
                 try:
                     mb = G.dec_str(m).encode(e)
@@ -343,33 +344,43 @@ class C08(Check):
                     mb = None
                 if mb != b:
                     ctx.disagree('escapecss', {'kind': 'escape', 'text': text, 'encoding': e}, b.hex(), m)
-            # oracle: decodable, and the scanner of the tokenizer reads the same as from the unescaped text
+            # oracle: decodable, and the tokenizer reads the same token value as from the unescaped text
             try:
                 back = b.decode(e)
             except UnicodeDecodeError as x:
                 ctx.violate('the serialised bytes decode in the sheet encoding', {'kind': 'escape', 'text': text, 'encoding': e},
                             {'error': str(x)})
                 continue
-            guard_ok = G.py_guard_ok(text, unrep)
-            if out[2 * i + 1] is not None and (out[2 * i + 1] == '1') != guard_ok:
-                ctx.disagree('escape guard', {'kind': 'escape', 'text': text, 'encoding': e}, guard_ok, out[2 * i + 1])
-            if G.impl_unescape(cssutils, back) != G.impl_unescape(cssutils, text):
-                ctx.violate('escaping what the encoding cannot represent does not change what the tokenizer reads',
-                            {'kind': 'reparse-token', 'text': text, 'encoding': e},
-                            {'escaped': back, 'reads': G.impl_unescape(cssutils, back),
-                             'original_reads': G.impl_unescape(cssutils, text)},
-                            known=None if guard_ok else 'C08-escaped-unrepresentable')
+            for k, mode in ((1, 'name'), (2, 'str')):
+                guard_ok = G.py_guard_ok(text, unrep, mode)
+                mo = out[3 * i + k]
+                if mo is not None and (mo == '1') != guard_ok:
+                    ctx.disagree('escape guard (%s)' % mode, {'kind': 'escape', 'text': text, 'encoding': e}, guard_ok, mo)
+                orig = G.impl_unescape(cssutils, text, mode)
+                if orig is None:
+                    continue            # not the body of one IDENT / STRING token
+                ctx.count('D:token:' + mode)
+                reads = G.impl_unescape(cssutils, back, mode)
+                if reads != orig:
+                    ctx.violate('escaping what the encoding cannot represent does not change what the tokenizer reads',
+                                {'kind': 'reparse-token', 'text': text, 'encoding': e, 'token': mode},
+                                {'escaped': back, 'reads': reads, 'original_reads': orig},
+                                known=None if guard_ok else 'C08-escaped-unrepresentable')
 
     def check_unescape(self, ctx, cssutils, texts):
-        lines = ['unesc ' + enc(t) for t in texts]
+        texts = [(m, t) for (m, t) in texts]
+        vals = [G.impl_unescape(cssutils, t, m) for (m, t) in texts]
+        keep = [(mt, v) for mt, v in zip(texts, vals) if v is not None]
+        ctx.notes['D_unescape_not_a_token_body'] = ctx.notes.get('D_unescape_not_a_token_body', 0) + len(texts) - len(keep)
+        lines = [('unesc ' if m == 'name' else 'unescs ') + enc(t) for ((m, t), v) in keep]
         out = ctx.driver(lines) if ctx.model_ok else [None] * len(lines)
-        for t, m in zip(texts, out):
-            v = G.impl_unescape(cssutils, t)
+        for ((mode, t), v), m in zip(keep, out):
             got = enc(v)
-            ctx.case(key=('Dun', t), nontrivial=(v != t), kind='D:unesc:' + ('changed' if v != t else 'same'),
-                     sample={'unescape': t, 'impl': v})
+            ctx.case(key=('Dun', mode, t), nontrivial=(v != t), kind='D:unesc:%s:%s' % (mode, 'changed' if v != t else 'same'),
+                     sample={'unescape': t, 'token': mode, 'impl': v})
             if m is not None and m != got:
-                ctx.disagree('unicodesub', {'kind': 'unescape', 'text': t}, got, m)
+                ctx.disagree('unicodesub' if mode == 'name' else 'stringsub', {'kind': 'unescape', 'text': t, 'token': mode},
+                             got, m)
 
     # == oracle: serialise -> decode -> reparse ===========================================================
     def oracle_reparse(self, ctx, cssutils):
